@@ -121,11 +121,27 @@ def check(ctx):
     f = prog.func(MR)
     ctx.analysed_fn(MR)
     r = Interp(prog).run(f)
-    deep = [e for e in r.calls("copy.deepcopy")]
-    ctx.require(len(deep) == 1 and deep[0].data["args"] and
-                deep[0].data["args"][0] is tm.sub(RES, const(0)),
-                "merge_results: deepcopy(results[0]) not found")
-    MERGED = deep[0].data["result"]
+    deep = [e for e in r.calls("copy.deepcopy")
+            if e.data["args"] and e.data["args"][0] is tm.sub(RES, const(0))]
+    if len(deep) == 1:
+        MERGED = deep[0].data["result"]
+    else:
+        # another way of making the accumulator: the object that is returned
+        # in the general case; whether it shares storage with the inputs is
+        # judged by the effect rule C13.1 below
+        cands = [v for v, l in r.returns if v is not tm.sub(RES, const(0))
+                 and not tm.is_const(l, False)]
+        ctx.require(len(cands) == 1, "merge_results: accumulator object not "
+                    "found (neither deepcopy(results[0]) nor a single "
+                    "returned object)")
+        MERGED = cands[0]
+        while MERGED.op in ("upd", "mut", "loopout") and False:
+            MERGED = MERGED.args[0]
+        deep = [e for e in r.of_kind("call", "setattr")
+                if e.data.get("result") is MERGED or
+                e.data.get("base") is MERGED][:1]
+        ctx.require(bool(deep), "merge_results: creation of the accumulator "
+                    "not found")
 
     # --------------------------------------------------------------- C13.1
     effs = direct_effects(r)
@@ -182,13 +198,28 @@ def check(ctx):
     # --------------------------------------------------------------- C13.4
     sets = [e for e in r.of_kind("setattr")
             if e.data["base"] is MERGED and e.data["name"] == "stats"]
-    ctx.require(len(sets) >= 2, "merge_results: stats sum / average stores "
-                "not found (unknown idiom)")
-    s_sum, s_avg = sets[0], sets[-1]
     loop_res = None
     for e in r.of_kind("loop"):
         if e.data["iter"] is REST:
             loop_res = e
+    if loop_res is not None:
+        # stores before the accumulation loop only initialise the
+        # accumulator (a copy of the first result's dict)
+        inits = [e for e in sets if e.idx < loop_res.idx]
+        for e in inits:
+            v = e.data["value"]
+            src = tm.attr(tm.sub(RES, const(0)), "stats")
+            okc = is_call_to(v, "builtins.dict", "copy.copy", "copy.deepcopy",
+                             ".copy") and any(x is src for x in v.walk())
+            ctx.ob("C13.4", e, bool(okc),
+                   "statistics accumulator starts as a copy of the first "
+                   "result's statistics" if okc else
+                   f"statistics accumulator starts as {fmt(v)[:80]}",
+                   key="C13.4:stats-init")
+        sets = [e for e in sets if e.idx > loop_res.idx]
+    ctx.require(len(sets) >= 2, "merge_results: stats sum / average stores "
+                "not found (unknown idiom)")
+    s_sum, s_avg = sets[0], sets[-1]
     ok = loop_res is not None and loop_res.data["lid"] in s_sum.loops
     ctx.ob("C13.4", s_sum, ok,
            "statistics are accumulated over results[1:] in input order" if ok
@@ -201,8 +232,12 @@ def check(ctx):
         key, val = v_.args[1].args
         el = T("elem", it, lid)
         other = T("elem", REST, loop_res.data["lid"])
-        okv = it is tm.call(tm.attr(tm.attr(MERGED, "stats"), "items"), (),
-                            ()) and key is tm.sub(el, const(0)) and \
+        src_ = tm.method_recv(it) if is_call_to(it, ".items") else None
+        own_stats = src_ is tm.attr(MERGED, "stats") or (
+            src_ is not None and src_.op == "loopvar" and
+            str(src_.args[0]).endswith(".stats") and
+            src_.args[1] == loop_res.data["lid"])
+        okv = own_stats and key is tm.sub(el, const(0)) and \
             val.op == "binop" and val.args[0] == "Add" and \
             {val.args[1], val.args[2]} == {
                 tm.sub(el, const(1)),
@@ -305,21 +340,32 @@ def check(ctx):
                    f"{fmt(fin[0].data['value'])}",
                    key="C13.4:append-not-divided")
     # --------------------------------------------------------------- C13.5
-    info_w = [e for e in r.events if
+    first_info = tm.attr(tm.sub(RES, const(0)), "info")
+
+    def info_copy(e):
+        """merged.info = (deep)copy of results[0].info, before merging"""
+        if e.kind != "setattr" or e.data["name"] != "info":
+            return False
+        v = e.data["value"]
+        return is_call_to(v, "copy.deepcopy", "copy.copy", "builtins.dict",
+                          ".copy") and any(x is first_info
+                                           for x in v.walk()) and \
+            (loop_res is None or e.idx < loop_res.idx)
+    info_w = [e for e in r.events if not info_copy(e) and (
               (e.kind == "setattr" and e.data["name"] == "info") or
               (e.kind in ("setitem", "call") and any(
                   x.op == "attr" and x.args[1] == "info" and
                   x.args[0] is MERGED for x in (
                       e.data.get("base") or e.data.get("recv") or
                       tm.NONE).walk()) and
-               (e.kind == "setitem" or e.data.get("mutates_recv")))]
+               (e.kind == "setitem" or e.data.get("mutates_recv"))))]
     ctx.ob("C13.5", f, not info_w,
            "the info of the first result is kept (never written after the "
            "copy)" if not info_w else
            f"info is modified at {info_w[0].where}", key="C13.5:info")
 
-    _tables(ctx, prog)
-    _res_parser(ctx, prog)
+    ctx.section(_tables, ctx, prog)
+    ctx.section(_res_parser, ctx, prog)
 
 
 def _res_parser(ctx, prog):
